@@ -35,7 +35,7 @@ def conform_reducer(chk, items, name="reducer"):
         items = rng.sample(items, 160)
     batch = et.reducer_batch([(p, tr) for (_l, p, _e, tr, _s) in items])
     verdicts, res = tracecheck.observe(chk, "engine/TraceReducer.tla", "engine/TraceReducer.cfg", batch, name=name,
-                                       workers=16)
+                                       workers=8)
     ok = sum(1 for v in verdicts.values() if v[0] == "ok")
     nticks = sum(len(t["ticks"]) for t in batch["traces"])
     drift = [(i, v) for i, v in verdicts.items() if v[0] != "ok"]
@@ -47,16 +47,17 @@ def conform_reducer(chk, items, name="reducer"):
 
 
 def observe(chk, obs, items, kinds, extra=None, name=None, keep=None):
+    import copy
     """Evaluate specs/obs/Obs_<obs>.tla on the recorded logs restricted to the record kinds it reads."""
     traces = []
     for (label, prog, ext, tr, sched) in items:
-        log = [r for r in tr if r["e"] in kinds and (keep is None or keep(r))]
+        log = [r for r in (copy.deepcopy(x) for x in tr if x["e"] in kinds) if (keep is None or keep(r))]
         d = {"cfg": cfg_for_tla(prog), "log": log}
         if extra:
             d.update(extra(prog, tr))
         traces.append(d)
     verdicts, res = tracecheck.observe(chk, "obs/Obs_%s.tla" % obs, "obs/Obs_%s.cfg" % obs, {"traces": traces},
-                                       name=name or ("obs_" + obs), workers=16)
+                                       name=name or ("obs_" + obs), workers=6)
     return verdicts
 
 
@@ -137,7 +138,7 @@ def mc_run(chk, name, prog, invariants, properties=(), ext_menu=(), max_ext=1, m
     lines += ["PROPERTY " + p for p in properties]
     (d / ("MC_%s.cfg" % name)).write_text("\n".join(lines) + "\n")
     res = tlc.run(d / ("MC_%s.tla" % name), d / ("MC_%s.cfg" % name), workdir=chk.work, deadlock=False, timeout=timeout,
-                  coverage=False)
+                  coverage=False, workers=6)
     chk.record_tlc("Engine/" + name, res)
     if expect_violation:
         if res.violated != expect_violation:
@@ -155,11 +156,22 @@ def mc_run(chk, name, prog, invariants, properties=(), ext_menu=(), max_ext=1, m
 BASE_INV = ["TypeOK", "Inv_C01", "Inv_C04", "Inv_C35", "Inv_C08"]
 
 
-def model_check(chk, pid):
-    """Design-level exhaustive check of the property's invariant (plus the always-on ones) on the scenario
+def mc_plans(chk, pid):
+    """Design-level exhaustive checks of the property's invariant (plus the always-on ones) on the scenario
     programs where its mechanism engages.  Programs are the same dicts the real engine runs."""
     q = chk.quick
     plans = {
+        "C09": [("collect", sc.collector(2, ("A", "A"), 3), ["Inv_C09"], [], {"expect_violation": "Inv_C09"}),
+                ("collect_nw1", sc.collector(1, ("A", "A"), 4) if q else sc.collector(1, ("A", "A", "B"), 6), ["Inv_C09"], [], {})],
+        "C10": [("waiter_asis", sc.waiter2(7), ["Inv_C10", "Inv_C10_Timeout", "Inv_C10_WaiterEvent"], [],
+                 {"ext_menu": [("Resp", None)], "max_ext": 2, "expect_violation": "Inv_C10_WaiterEvent"}),
+                ("waiter_design", sc.waiter2(7), ["Inv_C10", "Inv_C10_Timeout", "Inv_C10_WaiterEvent"], [],
+                 {"ext_menu": [("Resp", None)], "max_ext": 3, "dev": {"match_done_waiters": False}}),
+                ("waiter_reqs", sc.waiter(None, {"k": 1}), ["Inv_C10", "Inv_C10_Timeout"], [],
+                 {"ext_menu": [("Resp", None), ("Resp1", None)], "max_ext": 2, "dev": {"match_done_waiters": False}})],
+        "C03": [("fanout_delay", sc.fanout(2, 2, 2, 5, 1) if q else sc.fanout(2, 3, 2, 5, 1), ["Inv_C03a"], ["Act_C03b_AsCoded"], {}),
+                ("fanout_delay_strict", sc.fanout(2, 2, 2, 5, 1), ["Inv_C03a"], ["Act_C03b"], {"expect_violation": "Act_C03b"}),
+                ("fanout_nodelay", sc.fanout(1, 3, None, 0, 0), ["Inv_C03a"], ["Act_C03b_AsCoded"], {})],
         "C04": [("fanout", sc.fanout(2, 3, 2, 0, 1, timeout=20) if q else sc.fanout(2, 4, 2, 5, 1, timeout=20), ["Inv_C04", "Inv_C31"], [], {"max_cancel": 1}),
                 ("double_stop", sc.double_stop(2), ["Inv_C04", "Inv_C31"], [], {"max_cancel": 1})],
         "C35": [("fanout", sc.fanout(2, 3, 2, 0, 1) if q else sc.fanout(2, 4, 2, 5, 1), ["Inv_C35"], [], {}),
@@ -169,19 +181,29 @@ def model_check(chk, pid):
         "C01": [("fanout", sc.fanout(2, 3, 2, 0, 1) if q else sc.fanout(2, 4, 2, 5, 1), ["Inv_C01", "Inv_C03a"], [], {}),
                 ("collect", sc.collector(2, ("A", "A"), 3), ["Inv_C01"], [], {})],
     }
-    for (name, prog, inv, props, kw) in plans.get(pid, []):
-        invs = list(dict.fromkeys(BASE_INV + inv))
-        mc_run(chk, "%s_%s" % (pid, name), prog, invs, props, **kw)
+    return plans.get(pid, [])
+
+
+def model_check(chk, pid):
+    for (name, prog, inv, props, kw) in mc_plans(chk, pid):
+        mc_run(chk, "%s_%s" % (pid, name), prog, list(dict.fromkeys(BASE_INV + inv)), props, **kw)
 
 
 def standard_run(chk, pid, families, kinds, key_of=None, nontrivial=None, extra=None, describe=None, collect_kw=None,
                  items=None, keep=None, conform=True):
     """collect real traces -> reducer conformance -> observer verdicts -> findings -> design-level MC."""
+    from concurrent.futures import ThreadPoolExecutor
     if items is None:
         items = collect(chk, families, **(collect_kw or {}))
-    if conform:
-        conform_reducer(chk, items)
-    verdicts = observe(chk, pid, items, kinds, extra=extra, keep=keep)
+    # the TLC invocations are independent: run them side by side (each pays ~10 s of JVM/JIT warm-up)
+    pool = ThreadPoolExecutor(max_workers=6)
+    f_conf = pool.submit(conform_reducer, chk, items) if conform else None
+    f_obs = pool.submit(observe, chk, pid, items, kinds, extra, None, keep)
+    f_mc = [pool.submit(mc_run, chk, "%s_%s" % (pid, name), prog, list(dict.fromkeys(BASE_INV + inv)), props, **kw)
+            for (name, prog, inv, props, kw) in mc_plans(chk, pid)]
+    verdicts = f_obs.result()
+    if f_conf:
+        f_conf.result()
     seen = set()
     clauses = {}
     for i, (label, prog, ext, tr, sched) in enumerate(items, 1):
@@ -201,7 +223,9 @@ def standard_run(chk, pid, families, kinds, key_of=None, nontrivial=None, extra=
     mid = items[len(items) // 2]
     chk.sample({"scenario": mid[0], "schedule": sched_str(mid[4], 14)})
     chk.sample({"scenario": items[0][0], "schedule": sched_str(items[0][4], 14)})
-    model_check(chk, pid)
+    for f in f_mc:
+        f.result()
+    pool.shutdown()
     chk.assumptions += [
         "inert llama_index_instrumentation shim; virtual-time asyncio loop (asyncio's own callback order); "
         "observation through a Runtime subclass returning a recording InternalRunAdapter and harness-owned step bodies",
